@@ -252,20 +252,19 @@ def updateScript (env : Env) (s : Store) (orig : Task) (r : TaskReq) : Option (S
 def needsReassoc (v : Variant) (id newId : String) (orig : Task) (m : String) : Bool :=
   decide (m ≠ "") && (if v.reassocById then decide (id ≠ newId) else decide (id ≠ newId ∨ orig.tmpl ≠ m))
 
+/-- The updated record: only the given fields change. -/
+def updateRecord (env : Env) (orig : Task) (r : TaskReq) (script m : String) : Task :=
+  { script := script, vars := if r.vars ≠ "v0" then r.vars else orig.vars, tmpl := m,
+    dbrps := if !(env script).pdbrps.isEmpty then (env script).pdbrps else if !r.dbrps.isEmpty then r.dbrps else orig.dbrps,
+    enabled := match r.status with | some b => b | none => orig.enabled }
+
 /-- The validation chain of handleUpdateTask after script and template are known. -/
 def updateValidate (env : Env) (orig : Task) (r : TaskReq) (script m : String) : Except String Task :=
   if !(env script).parse then .error "update-parse"
   else if !(env script).pdbrps.isEmpty && !r.dbrps.isEmpty then .error "update-both-dbrp"
   else if !(env script).typed then .error "update-untyped"
-  else if !buildable env
-      { script := script, vars := if r.vars ≠ "v0" then r.vars else orig.vars, tmpl := m,
-        dbrps := if !(env script).pdbrps.isEmpty then (env script).pdbrps else if !r.dbrps.isEmpty then r.dbrps else orig.dbrps,
-        enabled := match r.status with | some b => b | none => orig.enabled }
-    then .error "update-invalid"
-  else .ok
-      { script := script, vars := if r.vars ≠ "v0" then r.vars else orig.vars, tmpl := m,
-        dbrps := if !(env script).pdbrps.isEmpty then (env script).pdbrps else if !r.dbrps.isEmpty then r.dbrps else orig.dbrps,
-        enabled := match r.status with | some b => b | none => orig.enabled }
+  else if !buildable env (updateRecord env orig r script m) then .error "update-invalid"
+  else .ok (updateRecord env orig r script m)
 
 /-- The association bookkeeping of handleUpdateTask. -/
 def reassociate (w : World) (id : String) (orig : Task) (m newId : String) : World :=
